@@ -185,7 +185,7 @@ add("C06", "exploration", "property-based testing (Hypothesis): 'fold' generator
     "executable equal the flat model, leave no parameter reference and validate cleanly. 23 kinds of invalidating "
     "mutations must be rejected by pydantic.ValidationError or a DSLInvalidError with located underlying errors - any "
     "other exception, acceptance or hang (CPU-time watchdog) is a violation.",
-    "Not generated: replicate/aggregate in DSL, key outputs/interface, input./data. entry parameters, dict-valued "
+    "Not generated: replicate/aggregate in DSL, interface (key outputs only as :ref references to leaf steps), input./data. entry parameters, dict-valued "
     "parameters, several references in one parameter value.", "DESIGN.md section 3, C06")
 add("C16", "exploration", "property-based testing (Hypothesis): pairs of instantiated experiments differing in exactly one "
     "aspect; independent 'work descriptor' model decides whether hashes must be equal",
